@@ -413,6 +413,8 @@ func runC05(c *Ctx) {
 	// ---------- R10 Client.Glob ----------
 	checkGlobComposite(c, "R10")
 
+	checkOpenfilePassthrough(c, "R2")
+
 	// ---------- R12 ReadDir returns the entries sorted by name, like os.ReadDir ----------
 	// (Walk's documented lexical order depends on it)
 	if rd := p.Func("(*Client).ReadDirContext"); rd == nil {
